@@ -164,4 +164,21 @@ def renderer(m, meta):
                     pass
                 if image.size != before:
                     problems.append({"size setting": repr(before), "renderer outcome": outcome, "arguments": kw, "size setting afterwards": repr(image.size)})
-    return {"reproduced": bool(problems), "input": "every size setting x renderer outcome x validation mode", "observed": problems[:3]}
+    # a render attempted on an image that was closed before: it fails, and the size setting is still what it was
+    from term_image.exceptions import TermImageError
+    for setting in (Size.FIT, Size.AUTO, Size.ORIGINAL, Size.FIT_TO_WIDTH, "fixed"):
+        for attempt in ("str", "format", "draw"):
+            image = BlockImage(Image.new("RGB", (30, 90)))
+            if setting == "fixed":
+                image.set_size(width=10)
+            else:
+                image.size = setting
+            before = image._size
+            image.close()
+            try:
+                {"str": lambda: str(image), "format": lambda: format(image, ""), "draw": lambda: image.draw()}[attempt]()
+            except (TermImageError, ValueError, AttributeError):
+                pass
+            if image._size != before:
+                problems.append({"size setting": repr(before), "image closed, then": attempt, "size setting afterwards": repr(image._size)})
+    return {"reproduced": bool(problems), "input": "every size setting x renderer outcome x validation mode; renders of a closed image", "observed": problems[:3]}
